@@ -71,9 +71,9 @@ def readASN1ElementTag (tag : UInt8) (s : Bytes) : Option (Bytes × Bytes) :=
 /-- the unique minimal (DER) length octets of `n < 2^32` -/
 def derLen (n : Nat) : Bytes :=
   if n < 0x80 then [UInt8.ofNat n]
-  else if n < 0x100 then [0x81, UInt8.ofNat n]
-  else if n < 0x10000 then [0x82, UInt8.ofNat (n / 0x100), UInt8.ofNat n]
-  else if n < 0x1000000 then [0x83, UInt8.ofNat (n / 0x10000), UInt8.ofNat (n / 0x100), UInt8.ofNat n]
-  else [0x84, UInt8.ofNat (n / 0x1000000), UInt8.ofNat (n / 0x10000), UInt8.ofNat (n / 0x100), UInt8.ofNat n]
+  else if n < 0x100 then 0x81 :: natToBE 1 n
+  else if n < 0x10000 then 0x82 :: natToBE 2 n
+  else if n < 0x1000000 then 0x83 :: natToBE 3 n
+  else 0x84 :: natToBE 4 n
 
 end XC.C23
